@@ -97,7 +97,7 @@ def check_case(acc: Acc, src: str, mode: str, origin: str):
     depth = max(gen_py.nesting_depth(src, toks), _crude_depth(src))
     acc.maxi("max_nesting_depth", depth)
     if not out.accepted:
-        if out.kind == "other" and isinstance(out.exc, RecursionError) and depth >= 15:
+        if out.kind == "other" and isinstance(out.exc, RecursionError) and depth >= 22:
             acc.finding("F01g", src[:120])
             return
         names = xid_names(toks)
